@@ -132,6 +132,15 @@ func genReq(t *rapid.T) Req {
 
 // at most one binding failure per request: only the first of several 422 causes is served, in a map order
 func oneDamage(r Req) Req {
+	// an AND alternative evaluates its schemes in a map order of the code under test: a credential that one
+	// scheme rejects while the other scheme finds nothing is "rejected" or "not applicable" depending on that order.
+	// Operations with an AND alternative get credentials whose outcome does not depend on it.
+	if id := ops[r.Op].ID; id == "opB2" || id == "opT" {
+		switch r.Cred {
+		case "bad1", "bad2":
+			r.Cred = "badboth"
+		}
+	}
 	if r.Body != "ok" && ops[r.Op].Method != "GET" {
 		if r.N == "x" || r.N == "2147483648" {
 			r.N = "7"
